@@ -10,7 +10,7 @@ while true; do
     [ -e "$d/SEED/.verifying" ] && continue
     # wait until the agent has finished writing (meta older than 3 min)
     if [ $(( $(date +%s) - $(stat -c %Y "$d/SEED/meta.json") )) -lt 180 ]; then continue; fi
-    while [ $(pgrep -fc "tools/[v]erifyseed.py") -ge 2 ]; do sleep 20; done
+    while [ $(pgrep -fc "tools/[v]erifyseed.py") -ge 3 ]; do sleep 20; done
     touch "$d/SEED/.verifying"
     ( echo "=== $id $(date +%H:%M)" >> /verif/.build/seedbatch.log; python3 /verif/tools/verifyseed.py $id >> /verif/.build/seedbatch.log 2>&1; rm -f "$d/SEED/.verifying"; touch "$d/SEED/.done" ) &
   done
